@@ -40,7 +40,7 @@ MANIFEST = {
             'locator calls tag-free must render to themselves (HTML and '
             'String).  All templates with <= 2 (quick) / <= 3 (thorough) '
             'tags, depth <= 2, over seven tag kinds, with every text slot '
-            'drawn from a 14-fragment near-tag / near-line-end alphabet (at most 2 slots '
+            'drawn from a 17-fragment near-tag / near-line-end alphabet (at most 2 slots '
             'deviating at once), printed in dtml/SSI/EPFS syntax with and '
             'without a newline after block tags, rendered with four '
             'namespaces, must equal the reference rendering (text verbatim, '
@@ -67,10 +67,11 @@ FREE_TOK = {
              '>', '&', '&dtml', '&dtml-', '&dtml.', ';', '%', '%(', ')',
              ')s', '"', '\n', ' ', 'x', '&dtml-x', '&dtml.q-x', '\r'],
     'String': ['%', '%(', ')', ')s', ')[', ')]', '%%', '(', 'x)', '<', '<dtml-',
-               '>', '&dtml-', ';', '"', '\n', ' ', 'x', '[', ']', 's', '!'],
+               '>', '&dtml-', ';', '"', '\n', ' ', 'x', '[', ']', 's', '!',
+               'var x'],
 }
 FRAGS = ['<', '<d', '<!--', '&dt', '%', '"', "'", '\n', ' \n', 'ab',
-         '\t \n', '\r\n', '\xa0\n', '\x0c\n']
+         '\t \n', '\r\n', '\xa0\n', '\x0c\n', '&dtml-', '&dtml.u', ';']
 NAMESPACES = [
     {'x': ['lit', 1], 'seq': ['seq', 'list', [['lit', 7], ['lit', 8]]]},
     {'x': ['lit', 0], 'seq': ['seq', 'list', [['lit', 7], ['lit', 8]]]},
@@ -276,6 +277,11 @@ def run_free(res, case):
             if not lex.definitely_tag_free(cls, src):
                 skipped += 1
                 continue
+            # the same text is first compiled (and, if it compiles,
+            # rendered) as a template of the *other* syntax class: a
+            # tag-free source renders to itself whatever was compiled before
+            render('String' if cls == 'HTML' else 'HTML', src,
+                   {'x': ['lit', 'X']})
             got = render(cls, src, {})
             n += 1
             if any(c in src for c in '<&%;>"'):
